@@ -281,6 +281,8 @@ class Cursor:
         elif k == "delete":
             self._delete(ast, pos, named)
         elif k == "create_table":
+            self.conn._begin()
+            st = self.conn.work
             _, name, cols, types, pk, if_not_exists = ast
             if name in st.tables:
                 if not if_not_exists:
@@ -288,14 +290,19 @@ class Cursor:
             else:
                 st.tables[name] = Table(name, cols, types, pk)
         elif k == "create_index":
+            self.conn._begin()
+            st = self.conn.work
             if ast[1] in st.indexes:
                 raise OperationalError("index %s already exists" % ast[1])
             st.indexes.append(ast[1])
         elif k == "drop_index":
+            self.conn._begin()
+            st = self.conn.work
             if ast[1] in st.indexes:
                 st.indexes.remove(ast[1])
         elif k == "analyze":
-            st.analyzed = True
+            self.conn._begin()
+            self.conn.work.analyzed = True
         elif k == "pragma":
             pass
         else:
@@ -535,6 +542,7 @@ class Cursor:
 
     def _insert(self, ast, pos, named):
         _, table, cols, action, vexprs = ast
+        self.conn._begin()
         t = self._table(table)
         sc = _Scope()
         given = [self._value(e, sc, pos, named) for e in vexprs]
@@ -559,7 +567,6 @@ class Cursor:
                 t.rows.remove(hit)
             else:
                 raise IntegrityError("UNIQUE constraint failed: %s" % ", ".join("%s.%s" % (table, c) for c in t.pk))
-        self.conn._begin()
         rid = (max(r[0] for r in t.rows) + 1) if t.rows else 1
         t.rows.append([rid] + vals)
         self.lastrowid = rid
@@ -567,9 +574,9 @@ class Cursor:
 
     def _update(self, ast, pos, named):
         _, table, sets, where = ast
+        self.conn._begin()
         t = self._table(table)
         n = 0
-        self.conn._begin()
         for r in list(t.rows):
             sc = _Scope()
             sc.add(table, t.cols, r)
@@ -588,10 +595,10 @@ class Cursor:
 
     def _delete(self, ast, pos, named):
         _, table, where = ast
+        self.conn._begin()
         t = self._table(table)
         keep = []
         n = 0
-        self.conn._begin()
         for r in t.rows:
             sc = _Scope()
             sc.add(table, t.cols, r)
@@ -635,20 +642,31 @@ def sqlfe_parse(sql):
 
 
 class Connection:
+    """A connection reads the committed store of its path until its first write, then works on a private copy
+    until commit() - so other connections to the same path (FeatureDB.update opens one) see exactly the
+    committed state, like separate sqlite connections do."""
+
     def __init__(self, path=":memory:"):
         self.path = path
-        if path != ":memory:" and path in STORES:
-            self.work = STORES[path].copy()
-        else:
-            self.work = Store()
-            if path != ":memory:":
-                STORES[path] = Store()  # sqlite3.connect creates the (empty) file
+        self._private = None
+        if path == ":memory:":
+            self._private = Store()
+        elif path not in STORES:
+            STORES[path] = Store()  # sqlite3.connect creates the (empty) file
         self.row_factory = None
         self.text_factory = str
         self.dirty = False
         self.isolation_level = ""
 
+    @property
+    def work(self):
+        if self._private is not None:
+            return self._private
+        return STORES[self.path]
+
     def _begin(self):
+        if self._private is None:
+            self._private = STORES[self.path].copy()
         self.dirty = True
 
     def cursor(self):
@@ -664,13 +682,14 @@ class Connection:
         return Cursor(self).executescript(script)
 
     def commit(self):
-        if self.path != ":memory:":
-            STORES[self.path] = self.work.copy()
+        if self.path != ":memory:" and self._private is not None:
+            STORES[self.path] = self._private
+            self._private = None
         self.dirty = False
 
     def rollback(self):
-        if self.path != ":memory:" and self.path in STORES:
-            self.work = STORES[self.path].copy()
+        if self.path != ":memory:":
+            self._private = None
         self.dirty = False
 
     def close(self):
